@@ -561,16 +561,13 @@ impl<W: Write> RdbWriter<W> {
                 self.write_byte(RdbOpcode::ZSet as u8)?;
                 self.write_string(key)?;
                 
-                // Get all items and write them
-                let len = skiplist.len();
-                self.write_length(len)?;
+                // Materialise the items first and write THEIR number: the skip list is shared
+                // with the live dataset, so a ZREM between `len()` and the read would otherwise
+                // leave a file that declares more members than it holds (unloadable)
+                let items = skiplist.range_by_rank(0, usize::MAX).items;
+                self.write_length(items.len())?;
                 #[cfg(feature = "verif")]
                 crate::verif::gate("rdb.zset.after_len");
-                
-                // Note: This is a suboptimal approach since we need to materialize
-                // all members in memory. A better approach would be to have a streaming
-                // iterator in the SkipList implementation.
-                let items = skiplist.range_by_rank(0, len - 1).items;
                 
                 for (member, score) in items {
                     self.write_string(&member)?;
